@@ -149,8 +149,8 @@ type c17Row struct {
 
 type c17DoorCase struct {
 	Row     c17Row  `json:"row"`
-	Variant string  `json:"variant"` // how the pair was built
-	Pair    c17XY   `json:"pair"`    // an empty string stands for a missing coordinate (class "absent")
+	Variant string  `json:"variant"`        // how the pair was built
+	Pair    c17XY   `json:"pair"`           // an empty string stands for a missing coordinate (class "absent")
 	List    []c17XY `json:"list,omitempty"` // UnFlattenECPoints: the whole list, Pair sits at Pos
 	Pos     int     `json:"pos"`
 	Form    int     `json:"form,omitempty"`  // JSON spelling of a missing coordinate: 0 null, 1 short array, 2 no Coords member
@@ -1793,7 +1793,7 @@ func C17(ctx *core.Ctx) error {
 			if doorCases%97 == 1 {
 				cov.Sample(map[string]any{"kind": "door", "door": row.Door, "stated": row.Stated, "default_curve": row.Global, "class": row.Base + "/" + row.Class,
 					"pre_state": strings.TrimRight(row.PreKind+":"+row.PreHow+":"+row.PreCurve+":"+dc.Embed, ":-"),
-					"variant": dc.Variant, "x": core.Short(dc.Pair.X, 40), "y": core.Short(dc.Pair.Y, 40), "model_expects": row.Expect, "library": verdict}, 12)
+					"variant":   dc.Variant, "x": core.Short(dc.Pair.X, 40), "y": core.Short(dc.Pair.Y, 40), "model_expects": row.Expect, "library": verdict}, 12)
 			}
 		}
 	}
